@@ -38,6 +38,7 @@ import RattrProofs.Lemmas.Pipeline2
 import RattrProofs.Lemmas.C06Layout
 import RattrProofs.Lemmas.C06Star
 import RattrProofs.Lemmas.C06Walk
+import RattrModel.LinkedLocal
 
 namespace Rattr.C06
 open Rattr Rattr.Strs Rattr.Resolve Rattr.Spec.ImportEquiv Rattr.Blacklist Rattr.ResolveLocal
@@ -2364,5 +2365,217 @@ example : ∃ t irs ds, analyseAll proj_cycleAbs = .ok (t, irs, ds) ∧ "target"
     decide
   | fatal a b => rw [h] at h2; cases h2
   | crash e => rw [h] at h2; cases h2
+
+end Rattr.C06
+
+
+/-! ## Round 4 (a) — one definition per file: the submodule is NAMED AFTER the member it defines
+
+`pkg/slugify.py` defines `slugify`, `pkg/__init__.py` re-exports it (`from .slugify import slugify`, `from .slugify
+import *`, `from pkg.slugify import slugify`); the importer says `from pkg import slugify`, `import pkg; pkg.slugify()`
+or `import pkg as p; p.slugify()`.  The qualified name of the symbol at the call site, `pkg.slugify`, is then ITSELF a
+module name: `Import.module_name` (the longest dotted prefix that is a module) is `pkg.slugify`, not `pkg`, and
+`resolve_import` looks `slugify` up in the submodule directly — the `__init__` hop is skipped.  `find_call_target_and_ir`
+goes straight into `resolve_import` for every `Import` target (Tie A below): there is no "a module is not callable"
+guard in front of it.  Tie B: the pair oracle on generated projects whose defining module carries the callee's name
+(`submodule-named-after-member:*` in the distribution), the dedicated rows `package-reexports-from-submodule-named-
+after-the-member:*`, and the `resolve_import` correspondence on the real symbols of those projects. -/
+
+namespace Rattr.C06
+open Rattr Rattr.Strs Rattr.Resolve Rattr.Spec.ImportEquiv
+
+private def r4 (x : String) : Str := x.toList
+
+/-- Tie A: (a) the `isinstance(target, Import)` branch of `find_call_target_and_ir` is the single statement
+`return resolve_import(…)` — no test on the symbol in front of it (model: `resolveCall` hands every import target
+to `resolveImport`); (b) `derive_module_name_from_path` takes the path as given (`LinkedLocal.pathNorm`). -/
+theorem tieA_round4_shapes :
+    Generated.C06.findCallTargetImportBranch = ["return resolve_import(target, environment=environment)"]
+    ∧ Generated.C06.deriveModuleNamePathAssignments = ["filepath = Path(filepath)"]
+    ∧ LinkedLocal.pathNorm = .asGiven := ⟨rfl, rfl, rfl⟩
+
+/-- `from pkg import f` (call `f(…)`) where a submodule `pkg.f` exists and defines `f`: the call is resolved to
+that definition, WHATEVER `pkg/__init__` contains (it is never consulted: `pkg.f` is the module of the name). -/
+theorem C06_reexport_submodule_named_after_member (w : World) (root : Context) (pkg f : Str) (ctxF : MCtx)
+    (s : MSym) (fuel : Nat) (hf : Ident f)
+    (hroot : Context.get? root f = some (importEntry w.existing ⟨f, pkg ++ '.' :: f⟩))
+    (hF : Provides w (pkg ++ '.' :: f) (pkg ++ '.' :: f) ctxF)
+    (hs : lookupSym ctxF f = some s) (hd : IsDef s f) :
+    resolveCall w (fuel + 1) root f = .viaImport (.found (pkg ++ '.' :: f) s) := by
+  obtain ⟨hdot, _, hrp, _⟩ := hf.notMem
+  unfold resolveCall
+  rw [callTargetFor_bare root f _ hf hroot rfl]
+  simp only [importEntry, if_true]
+  rw [resolveImport_def w fuel f (pkg ++ '.' :: f) _ ctxF f s hF (localNameOf_plain f _ hdot hrp) hs hd]
+
+/-- `import pkg` / `import pkg as n` (call `n.f(…)`), submodule `pkg.f` defines `f`: the synthesised symbol is
+`Import(f, "pkg.f")`, the same as for `from pkg import f`. -/
+theorem C06_package_attribute_submodule_named_after_member (w : World) (root : Context) (pkg n f : Str)
+    (ctxF : MCtx) (s : MSym) (fuel : Nat) (hn : Ident n) (hf : Ident f)
+    (hnone : Context.get? root (n ++ '.' :: f) = none)
+    (hroot : Context.get? root n = some (importEntry w.existing ⟨n, pkg⟩))
+    (hex : w.existing.contains pkg = true)
+    (hF : Provides w (pkg ++ '.' :: f) (pkg ++ '.' :: f) ctxF)
+    (hs : lookupSym ctxF f = some s) (hd : IsDef s f) :
+    resolveCall w (fuel + 1) root (n ++ '.' :: f) = .viaImport (.found (pkg ++ '.' :: f) s) := by
+  obtain ⟨hdot, _, hrp, _⟩ := hf.notMem
+  unfold resolveCall
+  rw [callTargetFor_member root n f _ hn hf hnone hroot rfl rfl hex]
+  simp only [importEntry, if_true]
+  rw [resolveImport_def w fuel f (pkg ++ '.' :: f) _ ctxF f s hF (localNameOf_plain f _ hdot hrp) hs hd]
+
+/-- `textutils/__init__.py: from .slugify import slugify`, `textutils/slugify.py: def slugify` -/
+private def pMember : Project :=
+  [{ name := r4 "target", isPkg := false,
+     decls := [.imp (.from_ (r4 "textutils") (r4 "slugify") none), .imp (.plain (r4 "textutils") (some (r4 "tu")))] },
+   { name := r4 "textutils", isPkg := true, decls := [.imp (.rel 1 (some (r4 "slugify")) (r4 "slugify") none)] },
+   { name := r4 "textutils.slugify", isPkg := false, decls := [.def_ (r4 "slugify") false []] }]
+
+/-- the one-definition-per-file layout, end to end in the model (a test on literals): Python binds both spellings
+to `textutils.slugify.slugify`, and so does rattr. -/
+theorem C06_submodule_named_after_member_test :
+    expected pMember 5 (r4 "target") (r4 "slugify") = some (.obj (r4 "textutils.slugify") (r4 "slugify") false [])
+    ∧ expected pMember 5 (r4 "target") (r4 "tu.slugify") = some (.obj (r4 "textutils.slugify") (r4 "slugify") false [])
+    ∧ resolveCall (worldOf pMember) 3 (rootOf (worldOf pMember).existing (rootSyms pMember (r4 "target"))) (r4 "slugify")
+        = .viaImport (.found (r4 "textutils.slugify") (.func (r4 "slugify") true))
+    ∧ resolveCall (worldOf pMember) 3 (rootOf (worldOf pMember).existing (rootSyms pMember (r4 "target"))) (r4 "tu.slugify")
+        = .viaImport (.found (r4 "textutils.slugify") (.func (r4 "slugify") true)) := by
+  decide
+
+/-- `pkg/__init__.py: from .impl import f`, `pkg/impl.py: def f`, and a file `pkg/f.py` that ALSO defines an `f` -/
+private def pShadow : Project :=
+  [{ name := r4 "target", isPkg := false, decls := [.imp (.from_ (r4 "pkg") (r4 "f") none)] },
+   { name := r4 "pkg", isPkg := true, decls := [.imp (.rel 1 (some (r4 "impl")) (r4 "f") none)] },
+   { name := r4 "pkg.impl", isPkg := false, decls := [.def_ (r4 "f") false []] },
+   { name := r4 "pkg.f", isPkg := false, decls := [.def_ (r4 "f") false []] }]
+
+/-- Known finding `wrong-file-followed:submodule-with-the-called-name-instead-of-the-package-attribute:*` (found in
+round 4): the shortcut of `C06_reexport_submodule_named_after_member` is taken whenever a file `pkg/f.py` exists —
+also when the package attribute `f` comes from ELSEWHERE.  Python binds `from pkg import f` to the package attribute
+(`pkg.impl.f`; `pkg/f.py` is never imported), rattr follows `pkg/f.py`. -/
+theorem C06_cex_submodule_shadows_package_attribute :
+    expected pShadow 6 (r4 "target") (r4 "f") = some (.obj (r4 "pkg.impl") (r4 "f") false [])
+    ∧ resolveCall (worldOf pShadow) 4 (rootOf (worldOf pShadow).existing (rootSyms pShadow (r4 "target"))) (r4 "f")
+        = .viaImport (.found (r4 "pkg.f") (.func (r4 "f") true)) := by
+  decide
+
+-- non-vacuity of the two general theorems: the literal project satisfies their hypotheses
+example : resolveCall (worldOf pMember) 1 (rootOf (worldOf pMember).existing (rootSyms pMember (r4 "target"))) (r4 "slugify")
+    = .viaImport (.found (r4 "textutils.slugify") (.func (r4 "slugify") true)) :=
+  C06_reexport_submodule_named_after_member (worldOf pMember) _ (r4 "textutils") (r4 "slugify")
+    [.func (r4 "slugify") true] _ 0 (by decide) (by decide) (by decide) (by decide) (.inl rfl)
+
+example : resolveCall (worldOf pMember) 1 (rootOf (worldOf pMember).existing (rootSyms pMember (r4 "target"))) (r4 "tu.slugify")
+    = .viaImport (.found (r4 "textutils.slugify") (.func (r4 "slugify") true)) :=
+  C06_package_attribute_submodule_named_after_member (worldOf pMember) _ (r4 "textutils") (r4 "tu") (r4 "slugify")
+    [.func (r4 "slugify") true] _ 0 (by decide) (by decide) (by decide) (by decide) (by decide) (by decide) (by decide)
+    (.inl rfl)
+
+end Rattr.C06
+
+
+/-! ## Round 4 (b) — a followed module whose file is reached THROUGH A SYMBOLIC LINK, and its own helpers
+
+Model: `RattrModel/LinkedLocal.lean` (`localKey`: the name `__resolve_target_and_ir` derives for a symbol of a
+followed module; `envOf`: the environment of `ResolveLocal` computed from the locator's view).  A local call inside
+the followed module `name` is resolved iff `localKey … name = some name` — the key `import_irs` holds.  With the path
+taken as given this is `Locator.followBase`, which `Props/C13.C13_located_roundtrip` shows to be `some name` FOR EVERY
+resolver (every structure of links below the search directory).  Tie B: the pair oracle on generated projects with
+linked package directories / module files (`local-callee-in-followed-module:*:module-reached-through-symbolic-link`),
+the dedicated rows `*-is-a-symbolic-link`, the `resolve_local` correspondence with the REAL `derive_module_name_from_
+path` of every file (`moduleOf`) and its well-formedness verdict. -/
+
+namespace Rattr.C06
+open Rattr Rattr.Locator Rattr.LinkedLocal Rattr.ResolveLocal
+
+/-- with the path taken as given, the derived name is the module name under which the file is analysed
+(`Locator.followBase`, the round-trip object of C13) -/
+theorem C06_local_key_is_follow_base (env : Locator.Env) (M : Mounts) (name : Dotted) :
+    localKey env M .asGiven name = followBase env M name := by
+  unfold localKey definedIn followBase deriveFrom
+  cases findModuleSpecFast env name <;> rfl
+
+/-- … and it depends on the resolver only through its value on the SEARCH DIRECTORIES: links below a search
+directory (a linked package directory, a linked module file, links inside links) cannot change it. -/
+theorem C06_local_key_independent_of_links_below_search_dir (env : Locator.Env) (M M' : Mounts)
+    (hs : M.site = .searchDir) (hs' : M'.site = .searchDir) (hd : M'.dirs = M.dirs)
+    (hrv : ∀ d ∈ M.dirs, M'.rv d = M.rv d) (name : Dotted) :
+    localKey env M' .asGiven name = localKey env M .asGiven name := by
+  have hspec : ∀ sp, specAbs M' sp = specAbs M sp := by
+    intro sp
+    unfold specAbs
+    cases sp.origin with
+    | none => rfl
+    | some o =>
+      cases o with
+      | ext _ => rfl
+      | file i rel =>
+        simp only [hd, hs, hs', originAbs]
+        cases hi : M.dirs[i]? with
+        | none => rfl
+        | some d => simp [hrv d (List.mem_of_getElem? hi)]
+  unfold localKey definedIn deriveFrom
+  cases findModuleSpecFast env name with
+  | none => rfl
+  | some sp => simp [hspec sp]
+
+/-- a local call inside a followed module is resolved as soon as the module's name round-trips: with `moduleOf`
+of the callee's file equal to the name `import_irs` holds the module under, the callee — a key of that IR — is
+found there (`C06_module_local_callee_found` with the key supplied by `localKey`). -/
+theorem C06_helper_of_followed_module_found (lenv : Locator.Env) (M : Mounts) (name : Dotted)
+    (env : ResolveLocal.Env) (t : DSym) (ir : FileKeys)
+    (hrt : localKey lenv M LinkedLocal.pathNorm name = some name)
+    (hmo : Dict.get? env.moduleOf t.file = (localKey lenv M LinkedLocal.pathNorm name).map Strs.joinDot)
+    (hnot : ∀ o ∈ env.target, o.file ≠ t.file)
+    (hi : Dict.get? env.imports (Strs.joinDot name) = some ir)
+    (hk : t ∈ ir) (hdist : KeysDistinct ir)
+    (hcls : ∀ o ∈ allKeys env, o.kind = .cls → o.name = t.name → o.file = t.file → o = t) :
+    resolveTargetAndIr env t = .ok { inTarget := false, module := Strs.joinDot name, key := t } := by
+  rw [hrt] at hmo
+  exact C06_module_local_callee_found env t _ ir hnot hmo hi hk hdist hcls
+
+/-! the project of the seeded change: `textlib -> vendor/textlib_v2` (a link INSIDE the project, so the real
+directory is importable under its own name too), `textlib/core.py` defines `norm` and `clean` (which calls `norm`). -/
+private def lk (x : String) : Str := x.toList
+private def lkEnv : Locator.Env :=
+  { fs := [[[lk "textlib", initPy], [lk "textlib", lk "core.py"], [lk "textlib", lk "helpers.py"],
+            [lk "vendor", lk "textlib_v2", initPy], [lk "vendor", lk "textlib_v2", lk "core.py"],
+            [lk "vendor", lk "textlib_v2", lk "helpers.py"], [lk "target.py"]]], stdlib := [] }
+private def lkM : Mounts :=
+  { rv := resolveLinks [([lk "proj", lk "textlib"], [lk "proj", lk "vendor", lk "textlib_v2"])] 4,
+    site := resolveSite, dirs := [[lk "proj"]] }
+private def lkCore : Dotted := [lk "textlib", lk "core"]
+private def lkMods : List (Dotted × FileKeys) :=
+  [(lkCore, [funcIn lkEnv lkM lkCore (lk "norm"), funcIn lkEnv lkM lkCore (lk "clean")])]
+
+/-- the pinned code on that project (a test on literals): the file is entered as `/proj/textlib/core.py`, the derived
+name is `textlib.core` = the key of `import_irs`, the helper `norm` is found in its own module. -/
+theorem C06_linked_package_helper_test :
+    definedIn lkEnv lkM lkCore = some [lk "proj", lk "textlib", lk "core.py"]
+    ∧ localKey lkEnv lkM LinkedLocal.pathNorm lkCore = some lkCore
+    ∧ resolveTargetAndIr (envOf lkEnv lkM LinkedLocal.pathNorm [] lkMods) (funcIn lkEnv lkM lkCore (lk "norm"))
+        = .ok { inTarget := false, module := lk "textlib.core", key := funcIn lkEnv lkM lkCore (lk "norm") }
+    ∧ localWFb (envOf lkEnv lkM LinkedLocal.pathNorm [] lkMods) = true := by
+  decide
+
+/-- Why "the path as given" is load-bearing: normalising with `Path.resolve()` first maps the same file back to
+the name of the link's destination, `vendor.textlib_v2.core` — importable, but not a key of `import_irs`: the
+lookup raises `ImportError`, "unable to resolve call to 'norm' in 'clean'", and the helper's accesses are lost. -/
+theorem C06_cex_resolved_path_loses_helper :
+    localKey lkEnv lkM .resolved lkCore = some [lk "vendor", lk "textlib_v2", lk "core"]
+    ∧ resolveTargetAndIr (envOf lkEnv lkM .resolved [] lkMods) (funcIn lkEnv lkM lkCore (lk "norm"))
+        = .error .importError
+    ∧ localWFb (envOf lkEnv lkM .resolved [] lkMods) = false := by
+  decide
+
+-- non-vacuity of `C06_helper_of_followed_module_found` and of the independence theorem
+example : resolveTargetAndIr (envOf lkEnv lkM LinkedLocal.pathNorm [] lkMods) (funcIn lkEnv lkM lkCore (lk "norm"))
+    = .ok { inTarget := false, module := Strs.joinDot lkCore, key := funcIn lkEnv lkM lkCore (lk "norm") } :=
+  C06_helper_of_followed_module_found lkEnv lkM lkCore (envOf lkEnv lkM LinkedLocal.pathNorm [] lkMods)
+    (funcIn lkEnv lkM lkCore (lk "norm")) [funcIn lkEnv lkM lkCore (lk "norm"), funcIn lkEnv lkM lkCore (lk "clean")]
+    (by decide) (by decide) (by decide) (by decide) (by decide) (by unfold KeysDistinct; decide) (by decide)
+
+example : localKey lkEnv { lkM with rv := id } .asGiven lkCore = localKey lkEnv lkM .asGiven lkCore :=
+  C06_local_key_independent_of_links_below_search_dir lkEnv lkM { lkM with rv := id } rfl rfl rfl (by decide) lkCore
 
 end Rattr.C06
